@@ -1,6 +1,7 @@
 import Drv.Common
 import VrpModel.C11
 import VrpModel.C11Init
+import VrpModel.C11Csv
 import VrpModel.Generated.C11Schema
 open Lean Drv
 
@@ -210,10 +211,142 @@ def part2 (j : Lean.Json) : R (List (String × Lean.Json)) := do
 
 end Init
 
+
+/-! ## part 3: CSV import -/
+section Csv
+open C11.Csv
+
+def parseDate (j : Lean.Json) : R Date :=
+  match j with
+  | .null => pure (.bad "")
+  | .num _ => do pure (.ok (← asInt j))
+  | _ => do pure (.bad (← strF j "bad"))
+
+def parseOptDate (j : Lean.Json) : R (Option Date) :=
+  if j.isNull then pure none else some <$> parseDate j
+
+def parseJobRow (j : Lean.Json) : R JobRow := do
+  pure { id := (← strF j "id"), lat := (← intF j "lat"), lng := (← intF j "lng"), demand := (← intF j "demand"),
+         duration := (← intF j "duration"), twStart := (← parseOptDate (fldD j "tw_start" .null)),
+         twEnd := (← parseOptDate (fldD j "tw_end" .null)) }
+
+def parseVehRow (j : Lean.Json) : R VehRow := do
+  pure { id := (← strF j "id"), lat := (← intF j "lat"), lng := (← intF j "lng"), capacity := (← intF j "capacity"),
+         twStart := (← parseDate (fldD j "tw_start" .null)), twEnd := (← parseDate (fldD j "tw_end" .null)),
+         amount := (← intF j "amount"), profile := (← strF j "profile") }
+
+def jDate : Date → Lean.Json
+  | .ok t => jInt t
+  | .bad s => Lean.Json.mkObj [("bad", .str s)]
+
+def jLoc (lat lng : Int) : Lean.Json := .arr #[jInt lat, jInt lng]
+
+def jTasks (ts : List Task) : Lean.Json :=
+  if ts.isEmpty then .null else
+  jList (fun t => Lean.Json.mkObj [
+    ("places", .arr #[Lean.Json.mkObj [("loc", jLoc t.lat t.lng), ("duration", jInt t.duration), ("tag", .null),
+       ("times", jOpt (fun w => Lean.Json.arr #[Lean.Json.arr #[jDate w.1, jDate w.2]]) t.times)]]),
+    ("demand", jOpt (fun d => Lean.Json.arr #[jInt d]) t.demand), ("order", .null)]) ts
+
+def jDoc (d : Doc) : Lean.Json :=
+  let jobs := d.jobs.mergeSort (fun a b => decide (a.id ≤ b.id))
+  Lean.Json.mkObj [
+    ("jobs", jList (fun j => Lean.Json.mkObj [("id", .str j.id), ("pickups", jTasks j.pickups),
+        ("deliveries", jTasks j.deliveries), ("services", jTasks j.services), ("replacements", .null),
+        ("extras", .bool false)]) jobs),
+    ("vehicles", jList (fun v => Lean.Json.mkObj [("typeId", .str v.typeId),
+        ("vehicleIds", jList (fun p => Lean.Json.str s!"{p.1}_{p.2}") v.vehicleIds), ("profile", .str v.profile),
+        ("scale", .null), ("costs", .arr #[.str "25", .str "0.0002", .str "0.005"]),
+        ("shifts", .arr #[Lean.Json.mkObj [("start", .arr #[jDate v.startEarliest, .null, jLoc v.lat v.lng]),
+                                           ("end", .arr #[.null, jDate v.endLatest, jLoc v.lat v.lng]),
+                                           ("extras", .bool false)]]),
+        ("capacity", .arr #[jInt v.capacity]), ("extras", .bool false)]) d.vehicles),
+    ("profiles", jList (fun p => Lean.Json.arr #[.str p, .null]) (sortStrs d.profiles)),
+    ("extras", .bool false)]
+
+/-- reads the rows back from the REAL document summary (for the oracle) -/
+def rowsFromDoc (doc : Lean.Json) : R (List JobRow × List VehRow × List String) := do
+  let jobs ← arrF doc "jobs"
+  let jrows ← jobs.flatMapM (fun j => do
+    let id ← strF j "id"
+    let side (key : String) (sign : Int) : R (List JobRow) := do
+      let ts := fldD j key .null
+      if ts.isNull then pure [] else
+      (← asArr ts).toList.mapM (fun t => do
+        let places ← arrF t "places"
+        match places with
+        | [p] =>
+          let loc ← asArr (← fld p "loc")
+          let times := fldD p "times" .null
+          let (s, e) ← if times.isNull then pure (none, none) else do
+            let tws ← asArr times
+            if tws.size != 1 then throw "several windows"
+            let w ← asArr tws[0]!
+            pure (some (← parseDate w[0]!), some (← parseDate w[1]!))
+          let dem := fldD t "demand" .null
+          let d ← if dem.isNull then pure 0 else do
+            let a ← asArr dem
+            if a.size != 1 then throw "demand dimensions"
+            asInt a[0]!
+          pure ({ id := id, lat := (← asInt loc[0]!), lng := (← asInt loc[1]!), demand := sign * d,
+                  duration := (← intF p "duration"), twStart := s, twEnd := e } : JobRow)
+        | _ => throw "task without exactly one place")
+    pure ((← side "pickups" 1) ++ (← side "deliveries" (-1)) ++ (← side "services" 0)))
+  let vs ← arrF doc "vehicles"
+  let vrows ← vs.mapM (fun v => do
+    let shifts ← arrF v "shifts"
+    match shifts with
+    | [sh] =>
+      let st ← asArr (← fld sh "start")
+      let en ← asArr (← fld sh "end")
+      let loc ← asArr st[2]!
+      let ids ← listF asStr v "vehicleIds"
+      let id ← strF v "typeId"
+      let cap ← asArr (← fld v "capacity")
+      -- ids "{ID}_{seq}", seq = 1.., end location = start location: otherwise not the row's data
+      if ids != (List.range ids.length).map (fun i => s!"{id}_{i+1}") then throw "vehicle ids"
+      if en[2]! != st[2]! then throw "end location"
+      pure ({ id := id, lat := (← asInt loc[0]!), lng := (← asInt loc[1]!), capacity := (← asInt cap[0]!),
+              twStart := (← parseDate st[0]!), twEnd := (← parseDate en[1]!), amount := ids.length,
+              profile := (← strF v "profile") } : VehRow)
+    | _ => throw "vehicle type without exactly one shift")
+  let profiles ← (← arrF doc "profiles").mapM (fun p => do asStr (← asArr p)[0]!)
+  pure (jrows, vrows, profiles)
+
+def sameMultiset [DecidableEq α] (a b : List α) : Bool :=
+  (a ++ b).all (fun x => a.count x == b.count x)
+
+def part3 (j : Lean.Json) : R (List (String × Lean.Json)) := do
+  let t : Tables := { jobs := (← listF parseJobRow j "jobs"), vehicles := (← listF parseVehRow j "vehicles") }
+  let impl ← fld j "impl"
+  let model := match importCsv t with
+    | .error .parse => Lean.Json.mkObj [("import", .str "error")]
+    | .error .overflow => Lean.Json.mkObj [("import", .str "panic")]
+    | .ok d => Lean.Json.mkObj [("import", .str "ok"), ("doc", jDoc d), ("codes", jList Lean.Json.str (validate d))]
+  let hyp := tablesOk t
+  let implOk := (fldD impl "import" .null) == .str "ok"
+  let oracle ← if !hyp then pure [] else do
+    if !implOk then pure [("import_ok", Lean.Json.bool false)] else
+    let codes ← listF asStr impl "codes"
+    let back := rowsFromDoc (← fld impl "doc")
+    let (jobsOk, vehOk, profOk) := match back with
+      | .ok (jr, vr, pr) =>
+        (sameMultiset jr t.jobs, decide (vr = t.vehicles),
+         C11.Init.sameSet pr (t.vehicles.map (·.profile)))
+      | .error _ => (false, false, false)
+    pure [("import_ok", Lean.Json.bool true), ("valid", Lean.Json.bool codes.isEmpty),
+          ("read_pragmatic_ok", Lean.Json.bool ((fldD impl "reads" .null) == Lean.Json.bool true)),
+          ("job_rows_carried", Lean.Json.bool jobsOk), ("vehicle_rows_carried", Lean.Json.bool vehOk),
+          ("profiles_carried", Lean.Json.bool profOk)]
+  return [("model", model), ("oracle", Lean.Json.mkObj oracle), ("hyp", .bool hyp)]
+
+end Csv
+
 def handle (j : Lean.Json) : R (List (String × Lean.Json)) := do
   let k ← strF j "k"
   if k == "rt" || k == "foreign" || k == "fbits" then part1 j k
   else if k == "init" then part2 j
+  else if k == "csv" then part3 j
   else throw s!"unknown case kind {k}"
 
 end Drv.C11
